@@ -100,4 +100,10 @@ pub fn run(cfg: &Cfg, rep: &mut Report) {
     },
     &oracle,
   );
+
+  // free-running part: the same families on truly parallel OS threads with seeded jitter at lock points
+  free_campaign(cfg, rep, cfg.n(4_000, 400_000), 0xC10F, &mut |r: &mut Rng| {
+    let fam = r.below(FAMILIES);
+    random_scen(r, fam)
+  }, &oracle);
 }
